@@ -376,12 +376,10 @@ impl Oracle for degenerate::dna::Dna {
 }
 
 // ---------------------------------------------------------------- C05 / C01: codec contract
-/// L1-L8 for one symbolic byte `b` (as bit pattern and as ASCII) and one symbolic table row `k`.
-pub fn codec_contract<C: Oracle, S: Src>(s: &mut S) {
+/// L0, L2, L3, L8: one symbolic bit pattern `b` (all 256 values)
+pub fn codec_bits_law<C: Oracle, S: Src>(s: &mut S) {
     let b = s.u8();
     chk!(s, "L0 BITS equals the documented width", C::BITS == C::WIDTH);
-
-    // --- bit patterns
     let exp = C::expect_bits(b);
     let got = C::try_from_bits(b);
     match (exp, got) {
@@ -396,16 +394,17 @@ pub fn codec_contract<C: Oracle, S: Src>(s: &mut S) {
         cov!(s, "some bit pattern is documented", true);
         let u = C::unsafe_from_bits(b);
         chk!(s, "L2 unsafe_from_bits agrees with try_from_bits where it succeeds", u == C::entry(i).sym);
-    } else {
-        cov!(s, "some bit pattern is undocumented", C::WIDTH < 8 || true);
     }
     if C::WIDTH < 8 && b < (1u8 << C::WIDTH) {
         chk!(s, "L8 every pattern below 2^BITS decodes", exp.is_some() && got.is_some());
     }
+}
 
-    // --- ASCII
-    let expa = C::expect_ascii(b);
-    let gota = C::try_from_ascii(b);
+/// L5, L7: one symbolic byte `c` as ASCII input (all 256 values)
+pub fn codec_ascii_law<C: Oracle, S: Src>(s: &mut S) {
+    let c = s.u8();
+    let expa = C::expect_ascii(c);
+    let gota = C::try_from_ascii(c);
     match (expa, gota) {
         (None, None) => {}
         (Some(i), Some(g)) => chk!(s, "L5 try_from_ascii parses to the documented symbol", g == C::entry(i).sym),
@@ -414,11 +413,15 @@ pub fn codec_contract<C: Oracle, S: Src>(s: &mut S) {
     }
     if let Some(i) = expa {
         cov!(s, "some byte is a symbol character", true);
-        let u = C::unsafe_from_ascii(b);
+        let u = C::unsafe_from_ascii(c);
         chk!(s, "L7 unsafe_from_ascii agrees with try_from_ascii where it succeeds", u == C::entry(i).sym);
+    } else {
+        cov!(s, "some byte is not a symbol character", true);
     }
+}
 
-    // --- per symbol (symbolic row k, second symbolic row j for distinctness)
+/// L1, L4, L6 and distinctness: symbolic table rows k, j
+pub fn codec_rows_law<C: Oracle, S: Src>(s: &mut S) {
     let k = s.usize();
     let j = s.usize();
     if !s.assume(k < C::len() && j < C::len()) {
@@ -429,8 +432,8 @@ pub fn codec_contract<C: Oracle, S: Src>(s: &mut S) {
     chk!(s, "L1 to_bits is the documented code", ek.sym.to_bits() == ek.code);
     chk!(s, "L1 code fits the declared width", C::WIDTH >= 8 || ek.code < (1u8 << C::WIDTH));
     chk!(s, "L6 to_char is the documented character", ek.sym.to_char() == ek.ch as char);
-    chk!(s, "L4 the canonical code decodes to the symbol", C::try_from_bits(ek.code) == Some(ek.sym));
-    chk!(s, "L6 the display character parses back", C::try_from_ascii(ek.ch) == Some(ek.sym));
+    chk!(s, "L4 the canonical code decodes to the symbol", C::try_from_bits(ek.code) == Some(ek.sym) && C::unsafe_from_bits(ek.code) == ek.sym);
+    chk!(s, "L6 the display character parses back", C::try_from_ascii(ek.ch) == Some(ek.sym) && C::unsafe_from_ascii(ek.ch) == ek.sym);
     if k != j {
         chk!(s, "distinct symbols have distinct codes", ek.sym.to_bits() != ej.sym.to_bits());
         chk!(s, "distinct symbols have distinct characters", ek.sym.to_char() != ej.sym.to_char());
@@ -438,6 +441,13 @@ pub fn codec_contract<C: Oracle, S: Src>(s: &mut S) {
     } else {
         cov!(s, "k == j reachable", true);
     }
+}
+
+/// L0-L8 (C05): the three parts on independent symbolic inputs
+pub fn codec_contract<C: Oracle, S: Src>(s: &mut S) {
+    codec_bits_law::<C, S>(s);
+    codec_ascii_law::<C, S>(s);
+    codec_rows_law::<C, S>(s);
 }
 
 /// items() lists every documented symbol exactly once (order is not part of C05)
@@ -657,6 +667,81 @@ pub fn text_bits_identity<S: Src>(s: &mut S) {
     cov!(s, "F6 behaviour reachable", true);
 }
 
+// ---------------------------------------------------------------- C09: word-level k-mer operations
+#[inline]
+fn sym_of(v: usize, i: usize, w: usize) -> usize {
+    (v >> (i * w)) & ((1usize << w) - 1)
+}
+
+/// complement / reverse / reverse-complement of a 2-bit k-mer against the symbol-level definition,
+/// for every value of the storage word below 4^K and a symbolic position i
+pub fn kmer_dna_ops_law<const K: usize, S: Src>(s: &mut S) {
+    let v = s.usize();
+    let i = s.usize();
+    if !s.assume(i < K && (K == 32 || v < (1usize << (2 * K)))) {
+        return;
+    }
+    let k: Kmer<Dna, K> = Kmer::from(v);
+    let c = k.to_comp();
+    let r = k.to_rev();
+    let rc = k.to_revcomp();
+    let (vc, vr, vrc) = (usize::from(&c), usize::from(&r), usize::from(&rc));
+    let fits = |x: usize| K == 32 || x < (1usize << (2 * K));
+    chk!(s, "k-mer results stay in canonical form (value below 2^(K*BITS))", fits(vc) && fits(vr) && fits(vrc));
+    chk!(s, "k-mer complement complements symbol i", sym_of(vc, i, 2) == 3 - sym_of(v, i, 2));
+    chk!(s, "k-mer reverse puts symbol K-1-i at position i", sym_of(vr, i, 2) == sym_of(v, K - 1 - i, 2));
+    chk!(s, "k-mer reverse-complement is both at once", sym_of(vrc, i, 2) == 3 - sym_of(v, K - 1 - i, 2));
+    chk!(s, "k-mer reverse-complement is an involution", rc.to_revcomp() == k);
+    chk!(s, "k-mer reverse and complement are involutions", r.to_rev() == k && c.to_comp() == k);
+    chk!(s, "k-mer revcomp equals either order of composition", c.to_rev() == rc && r.to_comp() == rc);
+    let canon = if k <= rc { k } else { rc };
+    let rcrc = rc.to_revcomp();
+    let canon2 = if rc <= rcrc { rc } else { rcrc };
+    chk!(s, "canonical form min(k, revcomp(k)) is the same for a k-mer and its reverse complement", canon == canon2);
+    cov!(s, "kmer ops law reachable", true);
+}
+
+/// reverse of a k-mer over any codec width (usize storage): symbol i of the result is symbol K-1-i
+pub fn kmer_rev_law<C: Oracle, const K: usize, S: Src>(s: &mut S) {
+    let w = C::BITS as usize;
+    let v = s.usize();
+    let i = s.usize();
+    if !s.assume(i < K && (K * w == 64 || v < (1usize << (K * w)))) {
+        return;
+    }
+    let k: Kmer<C, K> = Kmer::from(v);
+    let r = k.to_rev();
+    let vr = usize::from(&r);
+    chk!(s, "k-mer reverse (any codec) stays canonical", K * w == 64 || vr < (1usize << (K * w)));
+    chk!(s, "k-mer reverse (any codec) puts symbol K-1-i at position i", sym_of(vr, i, w) == sym_of(v, K - 1 - i, w));
+    cov!(s, "kmer rev law reachable", true);
+}
+
+// ---------------------------------------------------------------- C10: derived ordering on k-mers
+pub fn kmer_ord_law_usize<C: Oracle + Ord, const K: usize, S: Src>(s: &mut S) {
+    let (a, b, c) = (s.usize(), s.usize(), s.usize());
+    let (ka, kb, kc): (Kmer<C, K>, Kmer<C, K>, Kmer<C, K>) = (Kmer::from(a), Kmer::from(b), Kmer::from(c));
+    chk!(s, "k-mer order is the numeric order of the packed integer", ka.cmp(&kb) == a.cmp(&b) && (ka < kb) == (a < b) && (ka <= kb) == (a <= b));
+    chk!(s, "k-mer order is consistent with equality", (ka == kb) == (a == b) && (ka.cmp(&kb) == core::cmp::Ordering::Equal) == (ka == kb));
+    chk!(s, "k-mer partial_cmp agrees with cmp", ka.partial_cmp(&kb) == Some(ka.cmp(&kb)));
+    chk!(s, "k-mer order is total and transitive", (ka <= kb || kb <= ka) && (!(ka <= kb && kb <= kc) || ka <= kc));
+    chk!(s, "min/max of k-mers follow the integer", usize::from(&core::cmp::min(ka, kb)) == core::cmp::min(a, b) && usize::from(&core::cmp::max(ka, kb)) == core::cmp::max(a, b));
+    cov!(s, "kmer ord law reachable", true);
+}
+pub fn kmer_ord_law_u64<C: Oracle + Ord, const K: usize, S: Src>(s: &mut S) {
+    let (a, b) = (s.u64(), s.u64());
+    let (ka, kb): (Kmer<C, K, u64>, Kmer<C, K, u64>) = (Kmer::from(a), Kmer::from(b));
+    chk!(s, "u64 k-mer order is the numeric order of the packed integer", ka.cmp(&kb) == a.cmp(&b) && (ka == kb) == (a == b));
+    cov!(s, "kmer ord u64 reachable", true);
+}
+pub fn kmer_ord_law_u128<S: Src>(s: &mut S) {
+    let (a, b) = (s.u128(), s.u128());
+    let ka: Kmer<Dna, 40, u128> = Kmer { _p: core::marker::PhantomData, bs: a };
+    let kb: Kmer<Dna, 40, u128> = Kmer { _p: core::marker::PhantomData, bs: b };
+    chk!(s, "u128 k-mer order is the numeric order of the packed integer", ka.cmp(&kb) == a.cmp(&b) && (ka == kb) == (a == b));
+    cov!(s, "kmer ord u128 reachable", true);
+}
+
 // ---------------------------------------------------------------- dispatch by harness name
 /// run the law behind a Kani harness name; false if the name is unknown
 pub fn dispatch<S: Src>(name: &str, s: &mut S) -> bool {
@@ -668,6 +753,20 @@ pub fn dispatch<S: Src>(name: &str, s: &mut S) -> bool {
         "codec_contract_masked_dna" => codec_contract::<masked::dna::Dna, S>(s),
         "codec_contract_masked_iupac" => codec_contract::<masked::iupac::Iupac, S>(s),
         "codec_contract_degenerate" => codec_contract::<degenerate::dna::Dna, S>(s),
+        "codec_ascii_dna" => codec_ascii_law::<Dna, S>(s),
+        "codec_rows_dna" => codec_rows_law::<Dna, S>(s),
+        "codec_ascii_iupac" => codec_ascii_law::<Iupac, S>(s),
+        "codec_rows_iupac" => codec_rows_law::<Iupac, S>(s),
+        "codec_ascii_amino" => codec_ascii_law::<Amino, S>(s),
+        "codec_rows_amino" => codec_rows_law::<Amino, S>(s),
+        "codec_ascii_text" => codec_ascii_law::<text::Dna, S>(s),
+        "codec_rows_text" => codec_rows_law::<text::Dna, S>(s),
+        "codec_ascii_masked_dna" => codec_ascii_law::<masked::dna::Dna, S>(s),
+        "codec_rows_masked_dna" => codec_rows_law::<masked::dna::Dna, S>(s),
+        "codec_ascii_masked_iupac" => codec_ascii_law::<masked::iupac::Iupac, S>(s),
+        "codec_rows_masked_iupac" => codec_rows_law::<masked::iupac::Iupac, S>(s),
+        "codec_ascii_degenerate" => codec_ascii_law::<degenerate::dna::Dna, S>(s),
+        "codec_rows_degenerate" => codec_rows_law::<degenerate::dna::Dna, S>(s),
         "complement_dna" => complement_law::<Dna, S>(s),
         "complement_iupac" => complement_law::<Iupac, S>(s),
         "complement_masked_dna" => complement_law::<masked::dna::Dna, S>(s),
@@ -679,6 +778,53 @@ pub fn dispatch<S: Src>(name: &str, s: &mut S) -> bool {
         "amino_table" => amino_table_law(s),
         "conversions" => conversion_law(s),
         "text_bits_identity" => text_bits_identity(s),
+        "kmer_dna_ops_k1" => kmer_dna_ops_law::<1, S>(s),
+        "kmer_dna_ops_k2" => kmer_dna_ops_law::<2, S>(s),
+        "kmer_dna_ops_k3" => kmer_dna_ops_law::<3, S>(s),
+        "kmer_dna_ops_k4" => kmer_dna_ops_law::<4, S>(s),
+        "kmer_dna_ops_k5" => kmer_dna_ops_law::<5, S>(s),
+        "kmer_dna_ops_k6" => kmer_dna_ops_law::<6, S>(s),
+        "kmer_dna_ops_k7" => kmer_dna_ops_law::<7, S>(s),
+        "kmer_dna_ops_k8" => kmer_dna_ops_law::<8, S>(s),
+        "kmer_dna_ops_k9" => kmer_dna_ops_law::<9, S>(s),
+        "kmer_dna_ops_k10" => kmer_dna_ops_law::<10, S>(s),
+        "kmer_dna_ops_k11" => kmer_dna_ops_law::<11, S>(s),
+        "kmer_dna_ops_k12" => kmer_dna_ops_law::<12, S>(s),
+        "kmer_dna_ops_k13" => kmer_dna_ops_law::<13, S>(s),
+        "kmer_dna_ops_k14" => kmer_dna_ops_law::<14, S>(s),
+        "kmer_dna_ops_k15" => kmer_dna_ops_law::<15, S>(s),
+        "kmer_dna_ops_k16" => kmer_dna_ops_law::<16, S>(s),
+        "kmer_dna_ops_k17" => kmer_dna_ops_law::<17, S>(s),
+        "kmer_dna_ops_k18" => kmer_dna_ops_law::<18, S>(s),
+        "kmer_dna_ops_k19" => kmer_dna_ops_law::<19, S>(s),
+        "kmer_dna_ops_k20" => kmer_dna_ops_law::<20, S>(s),
+        "kmer_dna_ops_k21" => kmer_dna_ops_law::<21, S>(s),
+        "kmer_dna_ops_k22" => kmer_dna_ops_law::<22, S>(s),
+        "kmer_dna_ops_k23" => kmer_dna_ops_law::<23, S>(s),
+        "kmer_dna_ops_k24" => kmer_dna_ops_law::<24, S>(s),
+        "kmer_dna_ops_k25" => kmer_dna_ops_law::<25, S>(s),
+        "kmer_dna_ops_k26" => kmer_dna_ops_law::<26, S>(s),
+        "kmer_dna_ops_k27" => kmer_dna_ops_law::<27, S>(s),
+        "kmer_dna_ops_k28" => kmer_dna_ops_law::<28, S>(s),
+        "kmer_dna_ops_k29" => kmer_dna_ops_law::<29, S>(s),
+        "kmer_dna_ops_k30" => kmer_dna_ops_law::<30, S>(s),
+        "kmer_dna_ops_k31" => kmer_dna_ops_law::<31, S>(s),
+        "kmer_dna_ops_k32" => kmer_dna_ops_law::<32, S>(s),
+        "kmer_rev_iupac_k2" => kmer_rev_law::<Iupac, 2, S>(s),
+        "kmer_rev_iupac_k5" => kmer_rev_law::<Iupac, 5, S>(s),
+        "kmer_rev_iupac_k16" => kmer_rev_law::<Iupac, 16, S>(s),
+        "kmer_rev_amino_k3" => kmer_rev_law::<Amino, 3, S>(s),
+        "kmer_rev_amino_k10" => kmer_rev_law::<Amino, 10, S>(s),
+        "kmer_rev_text_k1" => kmer_rev_law::<text::Dna, 1, S>(s),
+        "kmer_rev_text_k8" => kmer_rev_law::<text::Dna, 8, S>(s),
+        "kmer_rev_masked_iupac_k12" => kmer_rev_law::<masked::iupac::Iupac, 12, S>(s),
+        "kmer_rev_degenerate_k7" => kmer_rev_law::<degenerate::dna::Dna, 7, S>(s),
+        "kmer_rev_dna_k9" => kmer_rev_law::<Dna, 9, S>(s),
+        "kmer_ord_dna_k5" => kmer_ord_law_usize::<Dna, 5, S>(s),
+        "kmer_ord_dna_k32" => kmer_ord_law_usize::<Dna, 32, S>(s),
+        "kmer_ord_text_k3" => kmer_ord_law_usize::<text::Dna, 3, S>(s),
+        "kmer_ord_miupac_k12_u64" => kmer_ord_law_u64::<masked::iupac::Iupac, 12, S>(s),
+        "kmer_ord_dna_k40_u128" => kmer_ord_law_u128(s),
         _ => return false,
     }
     true
